@@ -52,6 +52,17 @@ OBLIGATIONS (name — witness keys).  <s> in visit_leaves | transform | multi_ta
   stage keys = stage, parallel, schedule, delay, [progress: true = run with cli_progress=True and JPY_PARENT_PID set (C19)] + for visit: kind, depth, accept, apex, coordsys;
   transform: depth, present (positions having an input tile); multi_tan / multi_wcs: pieces
   ([y0,x0,h,w] of each input in the mosaic), bottom_up.
+  Object history (rt/c13_history.py): ONE Pyramid object lives through a program of operations (counters, leaf visits,
+  walks, enumeration, subpyramid(apex), depth changes); every leaf visit of the program is held against the statement
+  ("exactly the leaf tiles that pass the tile filter and lie in the selected sub-pyramid, each with its own tile") for the
+  configuration the object has at that moment.  <h> is ``history_visit_serial`` / ``history_visit_parallel``.
+  rt/<h>/every_item_once  — shape keys (as constructed), program, parallel, seed, delay_ms, step, op, config, missing, extra, duplicated
+  rt/<h>/tile_of_pos      — ... step, op, pos, tile_pos
+  rt/<h>/same_as_fresh    — ... step, op, history, fresh  (visit by the object with a history vs visit by a newly built
+                            object of the same final configuration)
+  rt/<h>/repeatable       — ... step, op, first_step      (the same visit twice under one configuration)
+  rt/<h>/raises           — ... step, op, exception
+  A history program that does not finish inside the watchdog is counted as undecided (a note), not as a violation.
 
 BOUNDS
   quick   : visit: parallel in {2,3,16}: all accept-sets at depth 1, corner shapes depth 2..3, every
@@ -64,6 +75,9 @@ BOUNDS
             a 2.5 s first item), transform depth 3 (85 items) and multi_tan with 8 inputs with a 2.5 s first item.
   thorough: ~2500 random visit shapes to depth 5, transform to depth 4 (341 items), more image
             collections, forced schedules for each worker count.
+  Object history: quick: ~830 directed serial programs at depth 2 (every first operation x every apex / repetition / depth
+            change, on 5 pyramid kinds) + 150 seeded random serial programs to depth 4 + 20 programs whose visits use 2/3
+            worker processes; thorough: directed at depth 2 and 3, 1500 random, 120 with worker processes.
   Watchdog: 60 s (quick) / 120 s (thorough) per run; normal runs take 1-3 s (multi_wcs 10-25 s).
 
 TRUSTED: npy / FITS / JPEG codecs; CLOCK_MONOTONIC shared across processes; the TOAST corner oracle
@@ -78,6 +92,9 @@ import time
 
 from rt import c13_quadtree as Q
 from rt import c01_batch as B
+from rt import c13_history as H
+
+HIST = ("history_visit",)
 
 CAP = 5
 STAGE_NAME = {"visit": "visit_leaves", "transform": "transform", "multi_tan": "multi_tan", "multi_wcs": "multi_wcs", "walk": "walk"}
@@ -783,6 +800,8 @@ def _run_multi_wcs(case):
 
 def stage_case(case):
     _FIRST_ITEM_DONE.clear()
+    if "program" in case:           # object-history case (rt/c13_history.py)
+        return H.run_history(case)
     return {"visit": _run_visit, "walk": _run_walk, "transform": _run_transform, "multi_tan": _run_multi_tan,
             "multi_wcs": _run_multi_wcs}[case["stage"]](case)
 
@@ -1178,6 +1197,15 @@ def run(ctx):
         serial_geom[key] = {p: evs[0][6] for p, evs in _ms(res["events"], "S").items()}
         ctx.case(("serial-visit",) + key, nontrivial=_n_items(c) > 0)
         report(evaluate(sc, {"status": "done", "result": res}, watchdog))
+    # object history, serial (in-process): one object, a program of operations, every leaf visit checked
+    hrng = H.derived_rng(ctx.seed, "c03")
+    hcases, hbound = H.serial_cases(hrng, "visit", thorough, 1500 if thorough else 150)
+    for hc in hcases:
+        ctx.case(H.case_key(hc), nontrivial=H.nontrivial(hc))
+        report(H.findings(hc, H.run_history(hc), HIST))
+    bounds.append(hbound)
+    hpar, hpbound = H.parallel_cases(hrng, "visit", thorough, 120 if thorough else 20, workers=(2, 3))
+    bounds.append(hpbound)
     # serial transform cases go through the isolated path together with the rest (cheap)
     extra_serial = []
     for c in cases:
@@ -1186,6 +1214,8 @@ def run(ctx):
     base_id = len(long_cases) + len(cases)
     for i, c in enumerate(extra_serial):
         c["id"] = base_id + i
+    for i, hc in enumerate(hpar):
+        hc["id"] = base_id + len(extra_serial) + i
     ctx.bound("serial runs: visit_leaves on each of the %d distinct shapes, u8_to_rgb on %d pyramids; every multi_tan / multi_wcs case runs "
               "its own serial reference first" % (n_serial, len(extra_serial)))
 
@@ -1200,6 +1230,7 @@ def run(ctx):
     light = [c for c in short_rest if not (c["stage"] == "multi_tan" or c.get("sched"))]
     batches += [[dict(c) for c in heavy[i:i + 3]] for i in range(0, len(heavy), 3)]
     batches += [[dict(c) for c in light[i:i + bs]] for i in range(0, len(light), bs)]
+    batches += [[dict(c) for c in hpar[i:i + 2]] for i in range(0, len(hpar), 2)]
     results = B.dispatch("rt.c03", "stage_case", None, os.path.join(ctx.workdir, "par"), watchdog, batch_size=bs, max_workers=24,
                          max_timeouts=CAP, est_case_secs=6.0, batches=batches)
     skipped = 0
@@ -1224,6 +1255,16 @@ def run(ctx):
             r = o["result"]
             ctx.sample({"stage": c["stage"], "parallel": c["parallel"], "schedule": c.get("schedule"), "items": _n_items(c),
                         "events": len(r["events"]), "worker_processes_seen": len(set(e[5] for e in r["events"])), "seconds": round(r["t1"] - r["t0"], 2)})
+    undecided = 0
+    for hc in hpar:
+        o = results.get(hc["id"], {"status": "skipped"})
+        if o["status"] != "done":
+            undecided += 1
+            continue
+        ctx.case(H.case_key(hc), nontrivial=H.nontrivial(hc))
+        report(H.findings(hc, o["result"], HIST))
+    if undecided:
+        ctx.note("%d object-history programs with worker processes did not finish inside the watchdog (or were not run): undecided" % undecided)
     if n_forced:
         ctx.monitor("forced_schedule_wrapped_queue_put_and_is_set_calls", sched_calls)
     for b in bounds:
@@ -1242,6 +1283,8 @@ def run(ctx):
 def replay(obligation, witness):
     import shutil
     import tempfile
+    if witness.get("program") is not None:
+        return H.replay(obligation, witness, HIST)
     case = case_from_witness(witness)
     work = tempfile.mkdtemp(prefix="c03_replay_")
     try:
